@@ -190,6 +190,14 @@ func TestSnapshots(t *testing.T) {
 		e.take("remote-DataCopy", e.rf.DataCopy(f.Fn), 0)
 
 		n := rapid.IntRange(1, 5).Draw(t, "updates")
+		// quiet histories: the observer obtains nothing further while the updates run (every DataCopy is an
+		// interaction with the store that a real holder of an old data set does not make); the data sets
+		// obtained so far and the event payloads are watched all the same. The reference fold then
+		// stands in for the stored lists when the next update is drawn.
+		quiet := rapid.IntRange(0, 2).Draw(t, "observerStaysQuiet") == 0
+		if quiet {
+			world.Label("observer/quiet")
+		}
 		var seq []string
 		nontrivial := false
 		var hist []any
@@ -233,8 +241,12 @@ func TestSnapshots(t *testing.T) {
 			what := origin + "/" + u.Shape()
 			payload := refmodel.Payload(&f, u.Items)
 			fp, fd := listgen.Filters(&f, u)
-			deepL, deepR := world.DeepCopy(e.srv.DataCopy(f.Fn)), world.DeepCopy(e.rf.DataCopy(f.Fn))
-			beforeL, beforeR := world.JSON(deepL), world.JSON(deepR)
+			var deepL, deepR any
+			var beforeL, beforeR string
+			if !quiet {
+				deepL, deepR = world.DeepCopy(e.srv.DataCopy(f.Fn)), world.DeepCopy(e.rf.DataCopy(f.Fn))
+				beforeL, beforeR = world.JSON(deepL), world.JSON(deepR)
+			}
 			failed, nonPersist := false, false
 			switch origin {
 			case "local-update":
@@ -273,6 +285,24 @@ func TestSnapshots(t *testing.T) {
 				failed = err != nil
 			}
 			e.w.Sync()
+			if quiet {
+				if !failed && !nonPersist {
+					if local {
+						e.lstate = refmodel.Fold(&f, e.lstate, u)
+					} else {
+						e.rstate = refmodel.Fold(&f, e.rstate, u)
+					}
+				}
+				e.checkSnaps(t, i, what)
+				if u.HasFilter() && len(state) > 0 {
+					nontrivial = true
+				}
+				e.collectEventPayloads(i)
+				seq = append(seq, what)
+				world.Label("origin/"+origin, "shape/"+u.Shape())
+				hist = append(hist, map[string]any{"origin": origin, "update": listgen.Describe(&f, u), "failed": failed, "quiet": true})
+				continue
+			}
 			afterL, afterR := world.JSON(world.DeepCopy(e.srv.DataCopy(f.Fn))), world.JSON(world.DeepCopy(e.rf.DataCopy(f.Fn)))
 			// clause 2: failed / non-persisting updates leave the stored data exactly as it was
 			if failed || nonPersist {
@@ -312,7 +342,7 @@ func TestSnapshots(t *testing.T) {
 			}
 			hist = append(hist, map[string]any{"origin": origin, "update": listgen.Describe(&f, u), "failed": failed})
 		}
-		world.Record(world.Hash(f.Fn, seq), nontrivial, "function/"+string(f.Fn))
+		world.Record(world.Hash(f.Fn, seq, quiet), nontrivial, "function/"+string(f.Fn))
 		if nontrivial && world.WantSample() {
 			world.Sample(map[string]any{"function": string(f.Fn), "history": hist, "snapshots_watched": len(e.snaps)})
 		}
